@@ -23,6 +23,7 @@ type C18Case struct {
 	// UrlTwice: the URL carriers hold our parameter twice, with the same value (each occurrence is
 	// judged: the URL reports every clause twice, and the first half must agree with the other carriers)
 	UrlTwice bool `json:"url_twice,omitempty"`
+	OddSeg   bool `json:"odd_segment,omitempty"`
 }
 
 func genC18Case(t *rapid.T) *C18Case {
@@ -129,6 +130,12 @@ func genC18Case(t *rapid.T) *C18Case {
 		c.Others = append(c.Others, [2]string{fmt.Sprintf("p%d", i), rapid.SampledFrom([]string{"", "1", "abc", "测试"}).Draw(t, "other")})
 	}
 	c.Pos = rapid.IntRange(0, k).Draw(t, "urlPos")
+	if rapid.IntRange(0, 3).Draw(t, "oddSegment") == 2 {
+		// an empty / bare / name-less query segment in front of our parameter
+		c.Others = append([][2]string{rapid.SampledFrom(oddSegments).Draw(t, "segment")}, c.Others...)
+		c.Pos++
+		c.OddSeg = true
+	}
 	c.UrlTwice = rapid.IntRange(0, 5).Draw(t, "urlTwice") == 3
 	finishScalar(t, b)
 	if rapid.IntRange(0, 7).Draw(t, "callFn") == 0 {
@@ -277,6 +284,9 @@ func TestC18(t *testing.T) {
 		}
 		if c.UrlTwice {
 			ev.Class("url-parameter-occurs-twice")
+		}
+		if c.OddSeg {
+			ev.Class("url-odd-segment-before-our-parameter")
 		}
 		ev.Class(fmt.Sprintf("violated=%s", bucket(nviol)))
 		b, _ := jsonMarshal(c)
